@@ -336,12 +336,18 @@ def _guard_scenario(T, d, variant=None):
 
 
 def _guard_class(P, u, T, d, variant=None):
-    it = PPInterp(P, u, _scan_cfg('skip_cond_incl'))
+    """what detect_include_guard does at `# d M` standing at depth 0 inside `#ifndef G / #define G / ... / #endif<EOF>`:
+    nest (hands the nested conditional to a group skipper), reject (answers NULL: always safe), pass (scans on and
+    accepts the final #endif), accept (accepts at this very line)"""
+    cfg = _scan_cfg('skip_cond_incl')
+    cfg['cut'] = dict(cfg['cut'])
+    cfg['cut']['skip_cond_incl2'] = cut_tok('skip_cond_incl2')
+    it = PPInterp(P, u, cfg)
     res = it.explore('detect_include_guard', _guard_scenario(T, d, variant), max_paths=200)
     cls = set()
     for ctx, out in res:
         o = outcome(out)
-        nest = calls(ctx, 'skip_cond_incl')
+        nest = calls(ctx, ('skip_cond_incl', 'skip_cond_incl2'))
         if nest:
             i = idx_of(ctx, nest[0][2][0] if nest[0][2] else None)
             if o[0] == 'resume' and o[1] is nest[0][5] and i in (6, 7, 8):
@@ -351,10 +357,16 @@ def _guard_class(P, u, T, d, variant=None):
         elif o[0] == 'ret':
             v = settle(it, o[1])
             src = spelled_from(v)
-            if src is not None and src.meta.get('text') == 'G':
-                cls.add('pass')
+            if isinstance(v, int) and v == 0:
+                cls.add('reject')
+            elif src is not None and src.meta.get('text') == 'G':
+                ends = [e for e in ctx.events if e[0] == 'equal' and e[2] == 'endif' and e[3] == 1]
+                at = idx_of(ctx, ends[-1][1]) if ends else None
+                cls.add('pass' if at == 10 else 'accept')
             else:
                 cls.add('odd:returns %r' % (v,))
+        elif o[0] == 'resume':
+            cls.add('odd:runs past the end of the file')
         else:
             cls.add('odd:%r' % (o[:2],))
     return cls
@@ -376,6 +388,55 @@ def _dispatch_class(it, res):
     return 'other'
 
 
+def _r102_guard(P, u, T, rep, universe):
+    """the include-guard recogniser on one line at depth 0 inside the guarded region.  Answering NULL is always safe (the
+    shortcut is not taken); what must not happen is that the scan goes on as if nothing had happened (or accepts) at a
+    line that changes the nesting"""
+    fn = 'detect_include_guard'
+    where = '%s:%d' % (U, u.fn(fn).line)
+    for d in universe:
+        try:
+            cls = _guard_class(P, u, T, d)
+        except Unsupported as e:
+            rep.undecided('R10.2', '%s:%s:scan/%s' % (U, fn, d), 'cannot interpret %s on `#%s`: %s' % (fn, d, e))
+            continue
+        odd = sorted(c for c in cls if c.startswith('odd:'))
+        if not cls or odd:
+            rep.undecided('R10.2', '%s:%s:scan/%s' % (U, fn, d), '%s at `#%s`: %s' % (fn, d, odd[0][4:] if odd else 'no path the analysis can follow'))
+            continue
+        if d in OPENERS:
+            bad = cls & {'pass', 'accept'}
+            construct = 'scan/%s' % d if not bad else ('opener-not-recognised/%s' % d if 'pass' in bad else 'opener-accepted/%s' % d)
+            what = ('inside the guarded region detect_include_guard scans over `#%s` as over an ordinary line: the #endif of that nested conditional is then taken at '
+                    'nesting depth 0, so the `#endif` that the recogniser accepts as the last line of the file need not be the one that closes the guard, and a file '
+                    'with text after its guard is reported as guarded (its second #include is suppressed)' % d)
+        elif d in CLOSERS:
+            bad = cls & {'pass', 'accept'}
+            construct = 'scan/%s' % d if not bad else ('depth-0-%s-%s' % (d, 'ignored' if 'pass' in bad else 'accepted'))
+            what = ('a `#%s` at nesting depth 0 that is not the last line of the file %s: %s' % (
+                d, 'is scanned over' if 'pass' in bad else 'is accepted as the end of the guard',
+                'the guard ended there, what follows is outside the guard' if d == 'endif' else 'the text after it is processed exactly when the guard macro IS defined') +
+                '; the file must not be reported as guarded (its second #include would be suppressed although textual inclusion yields text)')
+        else:
+            bad = cls & {'accept', 'nest'}
+            construct = 'scan/%s' % d if not bad else 'not-a-conditional-directive/%s' % d
+            what = 'detect_include_guard treats `#%s` as a conditional directive' % d
+        rep.ob('R10.2', '%s:%s:%s' % (U, fn, construct), not bad, what, where=where, facts={'behaviours': sorted(cls)})
+    for variant in ('word', 'midline'):
+        for d in COND:
+            try:
+                cls = _guard_class(P, u, T, d, variant)
+            except Unsupported as e:
+                rep.undecided('R10.2', '%s:%s:%s/%s' % (U, fn, variant, d), 'cannot interpret %s: %s' % (fn, e))
+                continue
+            if not cls or any(c.startswith('odd:') for c in cls):
+                rep.undecided('R10.2', '%s:%s:%s/%s' % (U, fn, variant, d), '%s: %s' % (fn, sorted(cls)))
+                continue
+            ok = 'accept' not in cls
+            rep.ob('R10.2', '%s:%s:%s/%s' % (U, fn, 'non-directive-%s-not-accepted' % variant if ok else 'non-directive-%s-taken-for-directive' % variant, d), ok,
+                   'detect_include_guard accepts a word `%s` that is not a directive as the end of the guard' % d, where=where, facts={'behaviours': sorted(cls)})
+
+
 def r102(P, u, T, rep, dres):
     rep.rule('R10.2', 'the opener set {if, ifdef, ifndef} and the closer set {elif, else, endif} are recognised identically, on the token after `#`, '
              'by skip_cond_incl, skip_cond_incl2, detect_include_guard and the dispatcher preprocess2; no other word is treated as one', floor=FLOORS['R10.2'])
@@ -392,7 +453,8 @@ def r102(P, u, T, rep, dres):
         'nest': 'treats it as the opener of a nested conditional', 'close': 'treats it as the end of the nested conditional',
         'stop': 'stops at it as the end of the skipped group', 'pass': 'passes over it as an ordinary line',
     }
-    for fn in ('skip_cond_incl2', 'skip_cond_incl', 'detect_include_guard'):
+    _r102_guard(P, u, T, rep, universe)
+    for fn in ('skip_cond_incl2', 'skip_cond_incl'):
         where = '%s:%d' % (U, u.fn(fn).line)
         for d in universe:
             try:
@@ -424,7 +486,7 @@ def r102(P, u, T, rep, dres):
             rep.ob('R10.2', '%s:%s:%s' % (U, fn, construct), ok, what, where=where, facts={'behaviours': sorted(cls)})
     # the same words where they are not directives: after a token that is not `#`, or after a `#` in the middle of a line
     vsay = {'word': 'the word `%s` after an ordinary token', 'midline': '`# %s` in the middle of a line (not a directive)'}
-    for fn in ('skip_cond_incl2', 'skip_cond_incl', 'detect_include_guard'):
+    for fn in ('skip_cond_incl2', 'skip_cond_incl'):
         where = '%s:%d' % (U, u.fn(fn).line)
         for variant in ('word', 'midline'):
             for d in COND:
@@ -1023,10 +1085,9 @@ def _r103_detect(P, u, T, rep):
 
     def mk(ctx):
         # six tokens of unknown spelling (the two lines every guarded file must start with), then a known tail:
-        #   x / # endif / y / # endif <EOF>      (the first #endif is not the last thing in the file)
+        #   x y / # endif <EOF>
         ts = [Obj('Token', lazy=True, label='t%d' % i) for i in range(6)]
-        tail = T.chain(T.line('p', [('x', 'TK_IDENT')]) + T.line('q', [('#', 'TK_PUNCT'), ('endif', 'TK_IDENT')]) +
-                       T.line('r', [('y', 'TK_IDENT')]) + T.line('s', [('#', 'TK_PUNCT'), ('endif', 'TK_IDENT')]) + [('eof', '', 'TK_EOF', True)])
+        tail = T.chain(T.line('p', [('x', 'TK_IDENT'), ('y', 'TK_IDENT')]) + T.line('s', [('#', 'TK_PUNCT'), ('endif', 'TK_IDENT')]) + [('eof', '', 'TK_EOF', True)])
         ts += tail
         for a, b in zip(ts, ts[1:]):
             a.fields['next'] = b
